@@ -5,7 +5,8 @@ import ScriggoV.Gen.Precedence
 Hand-written executable model (core Lean only) of
 
 * `ast/ast.go`: the `String()` methods of `Identifier`, `BasicLiteral` (int), `UnaryOperator`,
-  `BinaryOperator`, `Call`, `Index`, `Selector` and the parentheses count of `expression`
+  `BinaryOperator`, `Call`, `Index`, `Selector` (as they are: only `*x`/`<-x` under a call is
+  parenthesised, see `callParens`) and the parentheses count of `expression`
   (`print`, to a list of *tokens*; the parenthesisation conditions and the precedence table are
   the generated definitions of `Gen/Precedence.lean`);
 * `internal/compiler/parser_expressions.go`: `parseExpr` restricted to the tokens `print` emits
@@ -139,8 +140,23 @@ def needs (rule : Nat → Bool) (child : Expr) : Bool :=
   | some c => rule c
   | none => false
 
-/-- `operandString` (and `Call.String`): an operator operand of a primary expression is parenthesised -/
+/-- `_, ok := e.(Operator)` -/
 def isOperator (e : Expr) : Bool := e.prec?.isSome
+
+/-- the operator of a `*UnaryOperator` node (whatever its parentheses count) -/
+def Expr.unaryOp? : Expr → Option UnOp
+  | .unary u _ => some u
+  | .paren e => e.unaryOp?
+  | _ => none
+
+/-- `Call.String`: `case *UnaryOperator: if fn.Op == OperatorPointer || fn.Op == OperatorReceive`
+— the only case in which the function of a call is parenthesised (function and channel types are
+outside the fragment). `Index.String` and `Selector.String` never parenthesise their operand. -/
+def callParens (f : Expr) : Bool :=
+  match f.unaryOp? with
+  | some .pointer => true
+  | some .receive => true
+  | _ => false
 
 def wrap (c : Bool) (ts : List Token) : List Token :=
   if c then Token.lparen :: (ts ++ [Token.rparen]) else ts
@@ -156,9 +172,9 @@ def print : Expr → List Token
       wrap (needs (binaryLeftParens b.toOp (bprec b)) l) (print l) ++ binToks b ++
         wrap (needs (binaryRightParens b.toOp (bprec b)) r) (print r)
   | .call f args v =>
-      wrap (isOperator f) (print f) ++ .lparen :: (printArgs args ++ (if v then [.ellipsis, .rparen] else [.rparen]))
-  | .index e i => wrap (isOperator e) (print e) ++ .lbrack :: (print i ++ [.rbrack])
-  | .selector e n => wrap (isOperator e) (print e) ++ [.period, .ident n]
+      wrap (callParens f) (print f) ++ .lparen :: (printArgs args ++ (if v then [.ellipsis, .rparen] else [.rparen]))
+  | .index e i => print e ++ .lbrack :: (print i ++ [.rbrack])
+  | .selector e n => print e ++ [.period, .ident n]
 /-- the arguments, separated by commas -/
 def printArgs : List Expr → List Token
   | [] => []
@@ -300,9 +316,9 @@ def norm : Expr → Expr
   | .binary b l r =>
       .binary b (wrapP (needs (binaryLeftParens b.toOp (bprec b)) l) (norm l))
         (wrapP (needs (binaryRightParens b.toOp (bprec b)) r) (norm r))
-  | .call f args v => .call (wrapP (isOperator f) (norm f)) (normArgs args) v
-  | .index e i => .index (wrapP (isOperator e) (norm e)) (norm i)
-  | .selector e n => .selector (wrapP (isOperator e) (norm e)) n
+  | .call f args v => .call (wrapP (callParens f) (norm f)) (normArgs args) v
+  | .index e i => .index (norm e) (norm i)
+  | .selector e n => .selector (norm e) n
 def normArgs : List Expr → List Expr
   | [] => []
   | a :: as => norm a :: normArgs as
@@ -338,6 +354,24 @@ def WF : Expr → Prop
 def WFArgs : List Expr → Prop
   | [] => True
   | a :: as => WF a ∧ WFArgs as
+end
+
+mutual
+/-- the sub-fragment on which `String()` parses back (finding postfix-operand-parens): the operand
+of a call, index or selector is not a unary or binary operator, except `*x` and `<-x` as the
+function of a call (the one case `Call.String` parenthesises). -/
+def Plain : Expr → Prop
+  | .ident _ => True
+  | .lit _ => True
+  | .paren e => Plain e
+  | .unary _ e => Plain e
+  | .binary _ l r => Plain l ∧ Plain r
+  | .call f args _ => Plain f ∧ PlainArgs args ∧ (isOperator f = true → callParens f = true)
+  | .index e i => Plain e ∧ Plain i ∧ isOperator e = false
+  | .selector e _ => Plain e ∧ isOperator e = false
+def PlainArgs : List Expr → Prop
+  | [] => True
+  | a :: as => Plain a ∧ PlainArgs as
 end
 
 end ScriggoV.ExprPP
